@@ -146,6 +146,31 @@ func trueSources(v ssa.Value) (blocks []*ssa.BasicBlock, other []ssa.Value) {
 			for i, e := range x.Edges {
 				rec(e, x.Block().Preds[i])
 			}
+		case *ssa.UnOp:
+			// defer-spilled result: a load of the result cell; follow its stores
+			if al, ok := x.X.(*ssa.Alloc); ok && x.Op == token.MUL {
+				if seen[x] {
+					return
+				}
+				seen[x] = true
+				n := 0
+				for _, r := range *al.Referrers() {
+					if st, ok := r.(*ssa.Store); ok && st.Addr == ssa.Value(al) {
+						n++
+						if c, isC := st.Val.(*ssa.Const); isC {
+							if isBoolConst(c, true) {
+								blocks = append(blocks, st.Block())
+							}
+						} else {
+							rec(st.Val, st.Block())
+						}
+					}
+				}
+				if n > 0 {
+					return
+				}
+			}
+			other = append(other, v)
 		default:
 			other = append(other, v)
 		}
